@@ -1150,7 +1150,7 @@ void Handler::helpArgument( const string& help_arg_key, bool full)
    {
       mOutput << "Argument '" << key << "', usage:" << std::endl;
 
-      auto const  desc = mDescription.getArgDesc( key);
+      auto const  desc = mDescription.getArgDesc( p_arg_hdl->key());
       format::TextBlock  tb( 3, 80, true);
       tb.format(  mOutput, desc);
 
